@@ -65,7 +65,13 @@ pub fn schema_number(src: &mut Src) -> J {
             _ => J::f(-2e-300),
         };
     }
-    match src.weighted(&[8, 4, 4, 1]) {
+    match src.weighted(&[8, 4, 4, 1, 1]) {
+        // one value, three spellings: 0, 0.0, -0.0 (equal keys, ties)
+        4 => match src.below(3) {
+            0 => J::int(0),
+            1 => J::f(0.0),
+            _ => J::f(-0.0),
+        },
         0 => J::int(src.range(-3, 6)),
         1 => J::f(src.range(-3, 6) as f64),
         2 => J::f(src.range(-24, 24) as f64 / 8.0),
